@@ -212,11 +212,12 @@ def run(tier):
     sd = seed()
     cbuild.repo_only()
     # (A) the document specification
-    r = tlc.model_check('doc', 'CtlDoc', 'CtlDoc_mc.cfg' if tier == 'quick' else 'CtlDoc_mc2.cfg', coverage=False)
-    rep.add_tlc(r, 'CtlDoc_mc')
-    rep.model_violation(r, 'CtlDoc_mc')
+    for cfg in (('CtlDoc_mc.cfg',) if tier == 'quick' else ('CtlDoc_mc.cfg', 'CtlDoc_mc2.cfg')):
+        r = tlc.model_check('doc', 'CtlDoc', cfg, coverage=False)
+        rep.add_tlc(r, cfg[:-4])
+        rep.model_violation(r, cfg[:-4])
     # (B) documents: TLC behaviours + random builder
-    nsim, nrand, nlegs = (220, 160, 2) if tier == 'quick' else (3000, 5000, 3)
+    nsim, nrand, nlegs = (220, 160, 2) if tier == 'quick' else (2000, 2500, 3)
     states, gen = simulate_docs(wd, sd, nsim, procs=12 if tier == 'quick' else 16)
     log('C03: %d documents from CtlDoc behaviours (%.0fs)' % (len(states), rep.timer.s()))
     rep.transitions += gen
@@ -229,8 +230,8 @@ def run(tier):
         doc = docdrv.doc_from_state(st, drnd, place(st['top'], drnd))
         for j, (so, co, tail, style) in enumerate(legs_for(doc, drnd, nlegs)):
             jobs.append(('t%05d.%d' % (n, j), 'CtlDoc', doc, sd * 100003 + n * 7 + j, so, co, tail, style))
-    # every small document (one entry b/c, up to three one-statement sub-blocks B/C, one I or M comment)
-    sweep, r = sweep_docs(wd, 'CtlDoc_sweep.cfg')
+    # every small document (one entry b/c, up to three one-statement sub-blocks B/C [W], at most one I / M [N] comment)
+    sweep, r = sweep_docs(wd, 'CtlDoc_sweep.cfg' if tier == 'quick' else 'CtlDoc_sweep2.cfg')
     rep.add_tlc(r, 'CtlDoc_sweep')
     log('C03: %d documents from the exhaustive sweep' % len(sweep))
     for n, st in enumerate(sweep):
